@@ -108,7 +108,7 @@ def info(tier):
         "Expression.is_linear, the iterative traversal, Problem._is_linear_problem) is refuted or not by the "
         "(d+1)-th finite difference of the reference along 3 random rational lines (exact when rational); "
         "non-trivial = >=2 operator nodes" % len(risky_families()),
-        "required_cells": [f"{fam}|{r}" for fam, _ in risky_families() for r in ("recursive", "iterative", "recursive-prequeried", "iterative-prequeried")],
+        "required_cells": [f"{fam}|{r}" for fam in [f_ for f_, _ in risky_families()] + ["shared-subexpressions"] for r in ("recursive", "iterative", "recursive-prequeried", "iterative-prequeried")],
         "assumptions": [
             "Schwartz-Zippel: a non-polynomial / higher-degree rational function has a non-zero (d+1)-th difference on "
             "random rational lines with overwhelming probability",
@@ -170,7 +170,8 @@ def run_case(case, rec, rng):
     decls, node = case["decls"], case["node"]
     D = R.Decls(decls)
     fam = case["family"]
-    rec.case({"d": decls, "n": node}, nontrivial=A.n_ops(node) >= 2)
+    B.SHARE[0] = bool(case.get("share"))
+    rec.case({"d": decls, "n": node, "s": B.SHARE[0]}, nontrivial=A.n_ops(node) >= 2)
     names = sorted(set(R.ref_vars(D, node)) | set(D.all_var_names()))
     show = {"decls": A.render_decls(decls), "expr": A.render(node)}
 
@@ -258,6 +259,13 @@ def run(ctx, rec):
         i += 1
         if ctx.mine(i):
             run_case({"decls": X.D0, "node": node, "family": fam}, rec, rng)
+            if i % 2 == 0:
+                # the family node occurring several times as ONE shared object: polynomial DAG forms t*t + t and (t+1)*(t+1) - (t+1)
+                t = node
+                u = ["bin", "+", t, ["raw", 1.0, "float"]]
+                dag = ["bin", "+", ["bin", "*", t, t], t] if i % 4 == 0 else ["bin", "-", ["bin", "*", u, u], u]
+                run_case({"decls": X.D0, "node": dag, "family": "shared-subexpressions", "share": True}, rec, rng)
+    B.SHARE[0] = False
     n = 0
     while n < N_RANDOM[ctx.tier] and not rec.out_of_time():
         n += 1
@@ -268,6 +276,9 @@ def run(ctx, rec):
         except (R.ShapeError, R.OutOfModel):
             continue
         run_case({"decls": g.decls, "node": node, "family": "random"}, rec, rng)
+        if n % 6 == 0:
+            run_case({"decls": g.decls, "node": ["bin", "+", ["bin", "*", node, node], node], "family": "shared-subexpressions", "share": True}, rec, rng)
+            B.SHARE[0] = False
 
 
 def replay(w, rec):
